@@ -5,7 +5,7 @@ d=/var/tmp/cached-vk/dev${KDEV_SLOT:-}
 cd /verif && VK_STAGE_DIR=$d python3 -c "
 import sys; sys.path.insert(0,'/verif/bin')
 from vklib import stage; import json
-c={'TIER_THOROUGH':False,'SEED':0}
+c={'TIER_THOROUGH':False,'SEED':0,'LOCK_EDGES':False}
 for f in json.load(open('/verif/known-findings.json'))['findings']: c['KF_'+f['id'].upper()]=(f['status']=='known')
 stage.stage('dev',c)"
 cd $d && (CARGO_NET_OFFLINE=true timeout $t cargo kani --target-dir $d-target --harness $h --output-format old > /tmp/kold_$h.log 2>&1)
